@@ -249,6 +249,23 @@ def build(model, db):
             n2 = Opt(E31)
         N2 = type(db.Entity)(E31, (db.Entity,), {'code': PK(int, auto=False), 'n1s': Set('N1')})
         return None
+    if model == 'reference_cycles':
+        # foreign keys in both directions between two tables (one of them composite), in both alphabetical orders: whichever table is created first, the key that
+        # points at the later one can only be added afterwards
+        class Ca(db.Entity):
+            a = Req(int); b = Req(str); PK(a, b)
+            fav = Opt('Cb', reverse='fav_of'); items = Set('Cb', reverse='owner')
+        class Cb(db.Entity):
+            fav_of = Set(Ca, reverse='fav'); owner = Req(Ca, reverse='items')
+        class Da(db.Entity):
+            fav_of = Set('Db', reverse='fav'); owner = Req('Db', reverse='items')
+        class Db(db.Entity):
+            a = Req(int); b = Req(str); PK(a, b)
+            fav = Opt(Da, reverse='fav_of'); items = Set(Da, reverse='owner')
+        class Loop(db.Entity):
+            a = Req(int); b = Req(str); PK(a, b)
+            nxt = Opt('Loop', reverse='prev'); prev = Set('Loop', reverse='nxt')              # a composite self reference
+        return None
     if model == 'long_entity_names':
         L1 = type(db.Entity)(E27, (db.Entity,), {'x': Opt(int), 'ref': Opt(E31)})
         L2 = type(db.Entity)(E31, (db.Entity,), {'backrefs': Set(E27)})
@@ -257,7 +274,7 @@ def build(model, db):
 
 
 SQLITE_MODELS = ['attributes', 'relationships', 'inheritance', 'custom_names', 'long_names_distinct', 'long_entity_names']
-DDL_MODELS = ['attributes', 'relationships', 'inheritance', 'custom_names', 'long_names', 'long_names_distinct', 'qualified', 'explicit_pk_no_sequences', 'long_entity_names']
+DDL_MODELS = ['attributes', 'relationships', 'inheritance', 'custom_names', 'long_names', 'long_names_distinct', 'qualified', 'explicit_pk_no_sequences', 'long_entity_names', 'reference_cycles']
 MAY_REJECT = ('long_names', 'long_names_distinct')          # names that collide after truncation to the dialect limit: refusing the mapping is the stated behaviour
 
 
@@ -366,6 +383,28 @@ def _ddl_case(cfg, values):
             for o in t.get_objects_to_create(created):
                 objs.append(o)
         st['objs'] = [(type(o).__name__, o.name, getattr(getattr(o, 'table', None), 'name', None)) for o in objs]
+        # order and completeness: what is emitted, in emission order, against what the ENTITY MODEL declares (not against schema.tables[*].foreign_keys)
+        seq = []
+        for o in objs:
+            k = type(o).__name__
+            if 'ForeignKey' in k: seq.append(('fk', _base(o.child_table.name), tuple(c.name for c in o.child_columns), _base(o.parent_table.name)))
+            elif 'Index' in k: seq.append(('index', _base(o.table.name), tuple(c.name for c in o.columns)))
+            elif 'Table' in k: seq.append(('table', _base(o.name)))
+            else: seq.append(('other', k))
+        st['seq'] = seq
+        want_fk = []; want_tables = set()
+        for e in db.entities.values():
+            want_tables.add(_base(e._table_))
+            for a in e._new_attrs_:
+                if a.is_collection:
+                    if a.reverse.is_collection and (a.symmetric or a.entity.__name__ <= a.reverse.entity.__name__):
+                        want_tables.add(_base(a.table))
+                        # (Set.columns name the columns that refer to the OTHER entity)
+                        want_fk.append((_base(a.table), tuple(a.reverse.columns if not a.symmetric else a.columns), _base(a.entity._table_)))
+                        want_fk.append((_base(a.table), tuple(a.columns if not a.symmetric else a.reverse_columns), _base(a.reverse.entity._table_)))
+                elif a.reverse and a.columns:
+                    want_fk.append((_base(e._table_), tuple(a.columns), _base(a.reverse.entity._table_)))
+        st['want_fk'] = sorted(want_fk); st['want_tables'] = sorted(want_tables)
         st['columns'] = {t.name: [c.name for c in t.column_list] for t in schema.tables.values()}
         st['ddl'] = schema.generate_create_script()
         st['max'] = p.max_name_len
@@ -407,6 +446,25 @@ def _ddl_distinct(cfg, i, path):
     return True
 
 
+def _ddl_complete(cfg, i, path):
+    """every table of the model is created once, every declared foreign key is emitted exactly once and only after both of its tables, every index after its table, and
+    the create script contains a statement for each of them"""
+    if path.outcome != 'ret': return False
+    st = path.state
+    if path.value == 'rejected': return None
+    seq = st['seq']
+    tables = [x[1] for x in seq if x[0] == 'table']
+    if sorted(tables) != st['want_tables']: return False
+    fks = [x[1:] for x in seq if x[0] == 'fk']
+    if sorted(fks) != st['want_fk']: return False
+    pos = {t: k for k, t in enumerate(x[1] if x[0] == 'table' else None for x in seq) if t is not None}
+    for k, x in enumerate(seq):
+        if x[0] == 'fk' and not (pos[x[1]] < k and pos[x[3]] < k): return False
+        if x[0] == 'index' and not pos[x[1]] < k: return False
+    ddl = ' '.join(st['ddl'].split()).upper()
+    return ddl.count('CREATE TABLE') == len(tables) and ddl.count('FOREIGN KEY') == len(fks)
+
+
 CONTRACTS = [
     Contract('normalize_name', ['pony.orm.dbapiprovider:DBAPIProvider.normalize_name', 'pony.orm.dbproviders.postgres:PGProvider.normalize_name',
                                 'pony.orm.dbproviders.mysql:MySQLProvider.normalize_name', 'pony.orm.dbproviders.oracle:OraProvider.normalize_name'],
@@ -424,6 +482,6 @@ CONTRACTS = [
              bound='5 models (attribute kinds, relationships incl. composite foreign keys, inheritance, custom names, long names) on SQLite'),
     Contract('server_dialect_ddl', ['pony.orm.core:Database.generate_mapping', 'pony.orm.dbschema:DBSchema.generate_create_script',
                                     'pony.orm.dbproviders.oracle:OraSequence.__init__', 'pony.orm.dbproviders.oracle:OraTrigger.__init__'],
-             _ddl_configs, _ddl_case, [('every_name_within_the_length_limit', _ddl_lengths), ('names_pairwise_distinct', _ddl_distinct)], level='bounded',
-             bound='9 models x PostgreSQL / MySQL / Oracle; DDL text only'),
+             _ddl_configs, _ddl_case, [('every_name_within_the_length_limit', _ddl_lengths), ('names_pairwise_distinct', _ddl_distinct), ('every_table_and_declared_foreign_key_created_once_in_a_valid_order', _ddl_complete)], level='bounded',
+             bound='10 models (incl. self references, reference cycles, composite and inherited foreign keys, many-to-many) x PostgreSQL / MySQL / Oracle; objects to create and DDL text only'),
 ]
